@@ -6,6 +6,7 @@ CONSTANTS
   MaxRules = 2
   ElemToks = {}
   GenLen = 0
+  DefaultHosts = {"none"}
   Hosts = {"a.com", "b.com", "xa.com", "a.com:8080"}
   PathToks = {"s", "a", "1", "pA", "pS"}
   PathLen = 3
